@@ -8,7 +8,7 @@
     written over that graph and the arena-free tree denotation [Types.unfold].
 
     Statements only; proofs in proofs/Convert{Proofs,Frame,Tree,Entity}.v. *)
-From WacV Require Import Str Types Convert ConvertSpec ConvertProofs ConvertFrame ConvertTree ConvertEntity ConvertCache.
+From WacV Require Import Str Types Convert ConvertSpec ConvertProofs ConvertFrame ConvertTree ConvertEntity ConvertCache ConvertUses ConvertIds ConvertTotal ConvertPanic.
 
 (** 1. The world lists exactly the component's imports and exports: same names, same order, item-wise the right
     kind; the instance type of the package is the export list.  (The hypotheses are the validator's guarantee that
@@ -69,21 +69,100 @@ Proof.
 Qed.
 Print Assumptions convert_cache_consistent.
 
-(** 4.-5. Stated, not proved; their executable forms are evaluated on every implementation observation by the
-    correspondence ([walk_package], [ids_one_to_one_b], [resources_agree_b], [expected_uses] / [uses_agree_b]).
+(** 3b. The other direction: two DISTINCT validator identifiers are never converted to the same [wac_types] slot
+    (defined type, function type, interface, world, module type, resource -- an alias resource is a slot of its own).
+    The handle value types [own r] / [borrow r] occupy no slot ([ent_slot = None]) and are the only shared values.
+    [s] is the converter's final state ([conv_items] = the two loops of [from_bytes]). *)
+Theorem convert_ids_injective : forall g hfuel fuel t0 imports exports s,
+  conv_items hfuel fuel g t0 = COk (imports, exports, s) ->
+  forall v1 v2 e1 e2 x, In (v1, e1) (cs_cache s) -> In (v2, e2) (cs_cache s) ->
+    ent_slot e1 = Some x -> ent_slot e2 = Some x -> v1 = v2.
+Proof. exact ids_injective. Qed.
+Print Assumptions convert_ids_injective.
 
-    use_synthesis_spec :
-      ... -> expected_uses hfuel g (sites_of evs) [] [] = Some l /\ uses_agree t l
-      (a `use` entry exists exactly for a type item whose referenced type goes back, through the validator's alias
-       links, to an item first exported by another interface; it names that interface and the original item name,
-       the latter only when it differs)
+(** 4. Used-type provenance.  [cs_log s] is the ghost log of the converter: the type items (owner, name, referenced,
+    created) in the order in which [use_or_own] met them.  The [uses] field of EVERY interface and world of the
+    resulting collection is exactly what the first-owner rule [ConvertSpec.replay] computes from that ordered list, and
+    the converter's [owners] table is the rule's origin table ([replay] spells out when an entry is created: the
+    referenced type has an origin, through the validator's alias links or through a created identifier remembered
+    earlier, and that origin is an interface other than the owner; original items, self-owned types and origins that are
+    component types get no entry). *)
+Theorem use_synthesis_spec : forall g hfuel fuel t0 imports exports s,
+  uses_free t0 -> conv_items hfuel fuel g t0 = COk (imports, exports, s) ->
+  exists st, replay hfuel g (map usite_of (cs_log s)) ust0 = Some st /\
+             u_origins st = cs_owners s /\
+             forall o x, slot_uses (cs_types s) o = Some x -> x = uses_for o (u_entries st).
+Proof. intros g hfuel. exact (uses_replay g hfuel). Qed.
+Print Assumptions use_synthesis_spec.
 
-    resource_alias_spec_partial :
-      ... -> res_pairs ufuel g t (maps_of evs) = Some l /\ resources_agree l
-      (two converted resources have the same alias root iff the validator gives them the same resource)
+(** ... and every entry the rule produces is sound: it never points to the interface it is in, and it names an item
+    (the original name, recorded only when it differs) that was ORIGINAL in the interface it points to: met when no
+    identifier on the alias chain of its referenced type had an origin, i.e. the first owner. *)
+Theorem use_entries_point_to_first_owner : forall fuel g sites st,
+  replay fuel g sites ust0 = Some st ->
+  forall o n i om, In (o, (n, (i, om))) (u_entries st) ->
+    o <> OwIface i /\ original fuel g sites (OwIface i) (match om with Some x => x | None => n end).
+Proof. exact replay_entries_sound. Qed.
+Print Assumptions use_entries_point_to_first_owner.
 
-    reencode_satisfiable : not stated in Coq (TypeEncoder is not modelled); tested against the reference validator
-      for every generated component, see tools/props/c08.py. *)
+(** 5. Resource identity and aliasing (as far as [resource_map] carries it): any two converted resources have alias
+    roots, and the roots coincide iff the validator gives the two identifiers the same underlying resource
+    ([AliasableResourceId::resource()]). *)
+Theorem resource_alias_spec : forall g hfuel fuel t0 imports exports s,
+  conv_items hfuel fuel g t0 = COk (imports, exports, s) ->
+  forall v1 v2 r1 r2, In (v1, EnRes r1) (cs_cache s) -> In (v2, EnRes r2) (cs_cache s) ->
+    exists rid1 rid2 root1 root2,
+      rid_of_node g v1 = Some rid1 /\ rid_of_node g v2 = Some rid2 /\
+      res_root 2 (cs_types s) r1 = Some root1 /\ res_root 2 (cs_types s) r2 = Some root2 /\
+      (root1 = root2 <-> rid1 = rid2).
+Proof. exact resources_identity. Qed.
+Print Assumptions resource_alias_spec.
+
+(** 6. Totality.
+    (a) Fuel is an artefact: on a well-founded graph ([rk] decreases along every reference of a node, [pk] along every
+        [peel_alias] link) with fuel above the ranks, the conversion never returns the out-of-fuel outcome. *)
+Theorem conversion_never_out_of_fuel : forall g rk pk,
+  ranked g rk -> (forall v p, peel_of g v = Some p -> (pk p < pk v)%nat) ->
+  forall hfuel fuel t0,
+    (forall v, (rk v < hfuel)%nat) -> (forall v, (pk v < hfuel)%nat) -> (forall v, (S (rk v) < fuel)%nat) ->
+    conv_items hfuel fuel g t0 <> COutOfFuel.
+Proof. exact conv_items_noof. Qed.
+Print Assumptions conversion_never_out_of_fuel.
+
+(** (b) Panics.  On a well-typed graph ([wt_graph_b]: every reference points to a node of the expected sort, item names
+        are unique inside an instance type and inside the import / export list of a component type -- evaluated by the
+        driver on every case) the conversion never indexes an arena out of range ([PBadIndex]), never finds an entry of
+        the wrong kind in its cache ([PInvalidCached]) and never inserts an item twice ([PDupItem]); [mild] allows only
+        [PDupOwner] and [PExpectedResource].
+
+        PARTIAL.  Full statement: "... and returns a panic only in the situation of finding F1".  Missing:
+        - [PExpectedResource] (a handle [own r] / [borrow r] met before the resource type item [r] was converted) is not
+          excluded: it depends on the ORDER of the items, for which no graph predicate is given here; it was never
+          observed (0 of > 46,000 generated components);
+        - for [PDupOwner] the situation is characterised exactly on the run ([dup_owner_needs_shared_created] below) and
+          by the decidable graph predicate [ConvertSpec.shares_created_b]; that the panic implies the graph predicate
+          needs "every instance / component type node is converted at most once", which is not proved; the
+          correspondence checks  panic <-> predicate  on every case (22 panics = 22 graphs with the predicate in 6,236). *)
+Theorem conversion_panics_only_partial : forall g, wt_graph_b g = true ->
+  forall hfuel fuel t0, mild (conv_items hfuel fuel g t0).
+Proof. exact conv_items_mild. Qed.
+Print Assumptions conversion_panics_only_partial.
+
+(** (c) The dup-owner panic, exactly: [use_or_own] panics iff the referenced identifier has no origin on its alias chain
+        while the created identifier already has one; and then (the [owners] table being the origin table of the type
+        items met so far) an EARLIER type item has the same created identifier -- two type items sharing a created
+        identifier is the situation of finding F1 (the validator's copies of an instance type). *)
+Theorem dup_owner_needs_shared_created : forall hfuel g vn ow name rf cr s,
+  log_ok g hfuel s -> use_or_own hfuel g vn ow name rf cr s = CPanic PDupOwner ->
+  find_owner hfuel g (cs_owners s) rf = Some None /\ exists x, In x (cs_log s) /\ st_cr x = cr.
+Proof. exact dup_owner_situation. Qed.
+Print Assumptions dup_owner_needs_shared_created.
+
+(** Not proved: that the joint traversal [walk_package] of the correspondence succeeds and visits the type items in
+    the order of [cs_log] (the observational forms [ids_one_to_one_b], [resources_agree_b], [expected_uses] /
+    [uses_agree_b] are evaluated on every implementation observation);
+    reencode_satisfiable: not stated in Coq (TypeEncoder is not modelled); tested against the reference validator
+    for every generated component, see tools/props/c08.py. *)
 
 (** Non-vacuity: a component importing [f: func(x: record { a: u8, b: option<string> }) -> result<_, u32>] under an
     interface name and re-exporting a type; the model converts it, the world has one import and one export, and
